@@ -61,10 +61,10 @@ Proof. exact att_value_choice_independent. Qed.
     predefined entity references and (possibly empty) CDATA sections the oracle chose, [p_content]
     reads the rendering back as text-like items whose characters are the abstract text, and goes
     on with what follows (markup, a reference, or the end) *)
-Theorem text_is_character_data : forall c p f i prev s, all_chars s = true -> length s <= f ->
+Theorem text_is_character_data : forall c p f i prev s, all_chars s = true -> (length s <= f)%nat ->
   exists items n, chars_of items = s /\
     forall fuel T, follow_ok T ->
-      p_content (n + fuel) (text_chars f c p i prev s ++ T) =
+      p_content (n + fuel)%nat (text_chars f c p i prev s ++ T) =
       bind (p_content fuel T) (fun '(l, r) => Some (items ++ l, r)).
 Proof. exact text_reads_back. Qed.
 
